@@ -38,3 +38,9 @@ def run(ctx):
         RL.check_accepted_language(ctx, led, v)
     led.require_min("C10.validate", n, 300, "schema obligations (required keys and constrained values over 4 combos)")
     led.undecided("C10.multipleOf", "multipleOf: 0.1 under a validator that tests it in binary floating point")
+
+    # vectorString echoes self.vector: a factory that re-assigns it after construction (from_rh_vector
+    # storing the Red Hat string) makes as_json() emit a string outside the schema's pattern
+    from ..rules_access import check_foreign_attr_writes
+
+    check_foreign_attr_writes(ctx, ctx.ledger, "C10.vectorString.frozen", ('vector',))
